@@ -173,6 +173,7 @@ PlainFlags(p) ==
     [] OTHER -> TRUE
 InvSelfCanonical ==
   (IsCase /\ Representable(cur) /\ BodyLen(cur.pl, HdrSize(cur)) <= 600 /\ PlainFlags(cur.path)
-     /\ (cur.path.k = "std" => (cur.path.ci < Len(cur.path.segs) /\ cur.path.ch < SegLen(cur.path, 1) + SegLen(cur.path, 2) + SegLen(cur.path, 3)))) =>
+     /\ (cur.path.k = "std" => (cur.path.ci < Len(cur.path.segs) /\ cur.path.ch < SegLen(cur.path, 1) + SegLen(cur.path, 2) + SegLen(cur.path, 3)
+                                 /\ SegLen(cur.path, 1) + SegLen(cur.path, 2) + SegLen(cur.path, 3) <= 64))) =>
      Canonical(cur.pl.k, Encode(cur))
 =============================================================================
